@@ -257,6 +257,8 @@ def norm_site(s):
             name = parts[-2] + '::' + parts[-1]
         else:
             name = parts[-1]
+    if 'format::kdbx3::' in body:
+        name = 'kdbx3::' + name if name == 'parse_outer_header' else name
     return 'panic:%s:%s' % (name, cls)
 
 
@@ -302,6 +304,78 @@ def judge_kdbx4(pid):
             for stage, r in (('get_xml', rdec), ('parse', rparse)):
                 if isinstance(r, str) and r.startswith('panic:'):
                     v.append(('SPECFAIL', 'panic:%s' % r[len('panic:'):], '%s panics (%s)' % (stage, ex.get('mutation', sub))))
+        return v or [('AGREE', '', '')]
+    return judge
+
+
+def judge_legacy(pid):
+    jx = judge_xml(pid)
+    j4 = judge_kdbx4(pid)
+
+    def judge(case, out):
+        op = case.get('op')
+        if op == 'xml':
+            return jx(case, out)
+        if op == 'kdbx4read':
+            return j4(case, out)
+        v = []
+        real = case['real']
+        sub = case.get('sub')
+        ex = case.get('extra', {})
+        model = out.get('model') or {}
+        want = 'kdbx3' if op == 'kdbx3read' else 'kdb'
+        sniff = out.get('sniff')
+        if sniff != want:
+            # `Database::parse` dispatches on the signature: not a file of this format
+            exp = {'none': 'err:integrity', 'kdb2': 'err:unsupported'}.get(sniff)
+            model = dict(model)
+            if exp:
+                model['decrypt'] = model['parse'] = exp
+            else:
+                model['decrypt'] = norm_site(real.get('decrypt'))
+                model['parse'] = norm_site(real.get('parse'))
+        if op == 'kdbx3read':
+            rdec = norm_site(real.get('decrypt'))
+            rparse = norm_site(real.get('parse'))
+            if model.get('decrypt') != rdec:
+                v.append(('DISAGREE', 'kdbx3read:decrypt', 'model %s, real %s (%s)' % (model.get('decrypt'), rdec, ex.get('mutation', sub))))
+            elif rdec == 'ok':
+                if model.get('xml_sha256') != real.get('xml_sha256'):
+                    v.append(('DISAGREE', 'kdbx3read:xml', 'decrypted XML differs'))
+                if rparse == 'ok' and model.get('config') != real.get('config'):
+                    v.append(('DISAGREE', 'kdbx3read:config', '%s vs %s' % (model.get('config'), real.get('config'))))
+            if pid == 'C02' and sub == 'wf':
+                it = ex.get('intended', {})
+                if rdec != 'ok':
+                    v.append(('SPECFAIL', 'kdbx3:conforming-file-rejected:%s' % rdec, 'order %s blocks %s' % (ex.get('order'), ex.get('blocks'))))
+                else:
+                    if real.get('xml_sha256') != it.get('xml_sha256'):
+                        v.append(('SPECFAIL', 'kdbx3:xml-differs-from-stored', ''))
+                    if rparse == 'ok' and real.get('config') != it.get('config'):
+                        v.append(('SPECFAIL', 'kdbx3:config-differs-from-stored', '%s vs %s' % (real.get('config'), it.get('config'))))
+            outcome = rparse
+        else:
+            rparse = norm_site(real.get('parse'))
+            if model.get('parse') != rparse:
+                v.append(('DISAGREE', 'kdbread:outcome', 'model %s, real %s (%s)' % (model.get('parse'), rparse, ex.get('mutation', sub))))
+            elif rparse == 'ok':
+                if model.get('utf8') and model.get('tree') != real.get('tree'):
+                    v.append(('DISAGREE', 'kdbread:tree', diff_path(model.get('tree'), real.get('tree'), 'tree') or ''))
+                if model.get('config') != real.get('config'):
+                    v.append(('DISAGREE', 'kdbread:config', '%s vs %s' % (model.get('config'), real.get('config'))))
+            if pid == 'C02' and sub == 'wf':
+                names = 'duplicate-sibling-names' if ex.get('dup_names') else 'distinct-names'
+                if rparse != 'ok':
+                    v.append(('SPECFAIL', 'kdb:conforming-file-rejected:%s:%s' % (names, rparse), str(ex.get('groups'))))
+                elif real.get('tree') != ex.get('spec_tree'):
+                    v.append(('SPECFAIL', 'kdb:tree-differs-from-stored:%s' % names, diff_path(real.get('tree'), ex.get('spec_tree'), 'tree') or ''))
+            outcome = rparse
+        if pid == 'C04' and sub == 'cred' and outcome == 'ok':
+            v.append(('SPECFAIL', 'cred:wrong-credentials-open:%s' % op, ''))
+        if pid == 'C06':
+            for r in ({norm_site(real.get('decrypt')), outcome} if op == 'kdbx3read' else {outcome}):
+                if isinstance(r, str) and r.startswith('panic:'):
+                    v.append(('SPECFAIL', r, '%s (%s)' % (op, ex.get('mutation', sub))))
         return v or [('AGREE', '', '')]
     return judge
 
@@ -376,6 +450,23 @@ def judge_xml(pid):
         elif isinstance(save, str) and save.startswith('panic'):
             if m.get('dump_ok', True):
                 v.append(('DISAGREE', 'xml:dump-panic', 'real save panicked (%s), model predicts no panic' % save))
+        if sub in ('surface', 'kdbx3'):
+            mp = m.get('parse')
+            if mp != reopen:
+                v.append(('DISAGREE', 'xml:parse-outcome', 'model %s, real %s' % (mp, reopen)))
+            elif mp == 'ok':
+                d = diff_path(m.get('content'), real.get('reopen_content'), 'content')
+                if d:
+                    v.append(('DISAGREE', 'xml:parse-content', d))
+            if pid in ('C01', 'C02'):
+                if reopen != 'ok':
+                    v.append(('SPECFAIL', '%s:conforming-document-rejected:%s' % (sub, reopen), ''))
+                else:
+                    d = diff_path(real.get('reopen_content'), case.get('intended'), 'opened-vs-stored')
+                    if d:
+                        v.append(('SPECFAIL', '%s:content-differs-from-stored' % sub, d))
+            if pid == 'C06' and isinstance(reopen, str) and reopen.startswith('panic:'):
+                v.append(('SPECFAIL', reopen, 'parse panics on an XML surface case'))
         # ---- specifications
         if pid == 'C03' and sub == 'lossless':
             if save != 'ok':
@@ -461,3 +552,24 @@ PROPS['C12'] = {
     'partial': ['C12 (full) is false on the unchanged code: one witness per failing feature class (recorded as known findings); C12_partial for the readable domain'],
     'level_text': 'Kernel-checked over the models of writer, xml-rs contract and reader: witnesses for each unreadable class; the hostile generator runs the real save/open and the models on every class.',
 }
+
+LEGACY_ASSUME = FRAME_ASSUME + XML_ASSUME + ['KDBX 3.1 and KDB files are produced by independent builders (harness/src/legacy.rs); the XML document by an independent renderer with surface variations (harness/src/xmlgen.rs)',
+                                           'KDB text fields are compared as bytes when they are valid UTF-8 (lossy decoding of invalid UTF-8 is not modelled)']
+PROPS['C02'] = {
+    'ops': ['legacy-wf'], 'judge': judge_legacy('C02'), 'assumptions': LEGACY_ASSUME,
+    'rule': 'KDBX 3.1: full databases (every public field) rendered with ISO-8601 times and surface variations x {AES, Twofish, ChaCha20} x gzip on/off x {Salsa20, none} x credential compositions x '
+            'AES-KDF rounds 0..50 x header field permutations with optional comment field x 0..3 explicit block sizes out of {1,7,64,500} + remainder; '
+            'KDB: forests of 1..7 groups by level numbers (depth <= 6), 0..5 entries assigned to arbitrary group ids with random subsets of the seven field kinds, records in shuffled order with optional '
+            'comment records, AES / Twofish, credential compositions; every 10th KDB forest draws group names from {A, A, B} (repeated sibling names); '
+            'oracles: the intended database (KDBX3) and the textbook denotation of (level, id) records (KDB)',
+    'partial': ['C02 for KDB is false on the unchanged code when sibling groups share a name (F11, theorem C02_kdb_full_false); the partial statement covers forests with pairwise distinct sibling names',
+                'KDBX3 framing: the hashed block stream is proved for every partition; the header TLV loop and the XML mapping are validated against the real reader, not proved'],
+    'level_text': 'Kernel-checked: the hashed block reader returns the data for every partition into blocks (hashedBlocks_write); evaluation-level theorems for the KDB level-driven tree construction and entry placement, '
+                  'including the witness that refutes the full statement. Faithful Lean models of decrypt_kdbx3 and parse_kdb are run against Database::get_xml/parse on every generated file.',
+}
+for _pid, _ops in (('C01', ['frame-wf', 'surface']), ('C04', ['frame-cred', 'legacy-cred']), ('C06', ['frame-fuzz', 'legacy-fuzz'])):
+    PROPS[_pid]['ops'] = _ops
+    PROPS[_pid]['judge'] = judge_legacy(_pid)
+    PROPS[_pid]['assumptions'] = LEGACY_ASSUME
+PROPS['C01']['partial'] = ['the struct-level XML mapping is validated (Lean reader model vs real reader vs intended database on independently rendered documents with surface variations), not proved']
+PROPS['C04']['partial'] = [p for p in PROPS['C04']['partial'] if not p.startswith('KDBX 3.1 and KDB')] + ['for KDBX 3.1 and KDB the statement "some error, never a database" is validated against the real readers on credential edits; no theorem yet']
